@@ -27,6 +27,9 @@
     ra …                ProcessPacket on a router advertisement: `repeat++`, every 4th is processed,
                         options parsed, router found or created (first one becomes `h.Router`), fields stored
     envRepeat v         `repeat` is a process-global variable: another handler of the process changed it
+    rxOther             ProcessPacket on anything that is not a router advertisement (neighbour solicitation /
+                        advertisement, echo, MLD, redirect, unknown types, frames refused by the validation):
+                        the handler state is not touched
 
   Wall-clock time is not modelled: `wake` is enabled whenever a loop waits.
 -/
@@ -96,6 +99,7 @@ inductive Event where
   | wake (i : Nat)
   | ra (r : RaIn)
   | envRepeat (v : Int)
+  | rxOther
   deriving DecidableEq, Repr
 
 /-- what a step makes observable -/
@@ -193,6 +197,7 @@ def step (s : State) : Event → Option (State × Out)
       | .ok (s', ok) => some (s', .raResult ok)
       | _ => none
   | .envRepeat v => some ({ s with rep := v }, .none)
+  | .rxOther => some (s, .none)
 
 /-- run a trace, collecting the outputs -/
 def run (s : State) : List Event → Option (State × List Out)
